@@ -58,7 +58,8 @@ def op_strategy(counts=False):
                                              "inplace": ip, "mask": m},
                   AX, st.sampled_from(["lengthen", "shorten", "suffix",
                                        "swap", "lengthen", "shorten",
-                                       "suffix", "swap", "collide"]),
+                                       "suffix", "swap", "collide",
+                                       "collide_onto"]),
                   st.booleans(), st.booleans(), MASK),
         st.builds(lambda a, m, k: {"op": "add_metadata", "axis": a, "mask": m,
                                    "key": k, "unknown": True},
@@ -372,6 +373,20 @@ def apply(t, op):
         if not op["strict"] and sty != "swap":
             mk = hops.mask_for(len(ids), op["mask"])
             mp = {i: v for (i, v), k in zip(list(mp.items()), mk) if k}
+        if sty == "collide_onto":
+            # one ID renamed onto another one, which keeps its name: refused
+            from biom.exception import TableException
+            if len(ids) < 2:
+                return Outcome(skipped="one id cannot collide")
+            mp = {ids[0]: ids[-1]}
+            if op["strict"]:
+                mp.update({i: i for i in ids[1:]})
+            try:
+                r = t.update_ids(mp, axis=op["axis"], strict=op["strict"],
+                                 inplace=op["inplace"])
+            except TableException:
+                return Outcome(skipped="collision refused")
+            return Outcome(r, inplace=op["inplace"])
         if sty == "collide":
             # every ID renamed to the same name: refused, whatever the table
             # holds (an accepted one would show duplicate IDs downstream)
